@@ -692,7 +692,8 @@ func (ls *LState) where(level int, skipg bool) string {
 		return ls.where(level+1, skipg)
 	}
 	line := ""
-	if proto != nil {
+	if proto != nil && cf.Pc > 0 {
+		// Pc is still 0 when the frame has been set up but no instruction has run
 		line = fmt.Sprintf("%v:", proto.DbgSourcePositions[cf.Pc-1])
 	}
 	return fmt.Sprintf("%v:%v", sourcename, line)
